@@ -11,7 +11,8 @@ access path / call shape = a field of the structure of primitives (a PARAMETER o
 Scheme.  A method becomes a function in continuation-passing style over a record `…Locals` holding EVERY
 Python local, parameter and used attribute of `self` (one field each; renaming a local renames a bound field,
 the proofs do not mention them by position) and, for `_maintask`, the state of the world `w : σ` (alarm table,
-clock, whatever `recalc` does).  Statement lists are translated back to front: the code after an `if` both of
+clock, whatever `recalc` does); the fields of the `_maintask` record are canonical: `v<n>`, n = source position of the
+first binding.  Statement lists are translated back to front: the code after an `if` both of
 whose branches go on becomes a `let`-bound join point.
 
  * `Flag.OR/test_clear/set/clear/__bool__` (utils/flag.py): value  ->  (new value, result)
@@ -33,6 +34,14 @@ Numbers: Python floats/ints in time arithmetic are exact rationals (`Rat`), indi
 Ignored: logging calls (an `if` that only logs is dropped when its test has no effect), `assert hasattr(blk,
 'recalc')` inside the recalc loops (add_block refuses such blocks), type annotations, docstrings.
 Anything else: UNTRANSLATABLE -> the definition is omitted and the theorems that mention it stop compiling.
+
+Audit rules (two Python expressions that can differ must not become one Lean term): truthiness only on Booleans,
+Flags (translated `__bool__`) and sets of the table (`not s` = `sEmpty`); `is None` only where the static type is an
+Option (the index) or a declared attribute; `== None`, `==`/`!=` on an optional, `is` between values, optional locals
+behind `and`/`or`/conditional expressions, effects behind a short-circuit operator or in a right operand: refused;
+`d[k]` / `del d[k]` raise KeyError without the key; module constants are taken from the cron module's namespace;
+`Flag` is the class bound to that name in the cron module, `__init__` included; decorated functions, *args/**kwargs,
+unexpected defaults: refused; arguments of ignored logging calls must be effect-free (`Fn.harmless`).
 """
 import ast
 import inspect
@@ -52,6 +61,20 @@ def path(node):
     raise Untranslatable(f'not an access path: {ast.dump(node)[:80]}')
 
 
+def check_plain_function(node, what, allow_kwonly=False):
+    """nothing the translation does not look at may change the meaning: no decorators, no *args/**kwargs (except a
+    trailing `**_data` of event handlers), no positional defaults other than the ones the caller handles"""
+    if node.decorator_list:
+        raise Untranslatable(f'{what}: decorated')
+    a = node.args
+    if a.vararg is not None or a.posonlyargs:
+        raise Untranslatable(f'{what}: *args / positional-only parameters')
+    if a.kwonlyargs and not allow_kwonly:
+        raise Untranslatable(f'{what}: keyword-only parameters')
+    if a.kwarg is not None and not (allow_kwonly and a.kwarg.arg == '_data'):
+        raise Untranslatable(f'{what}: **kwargs')
+
+
 def try_path(node):
     try:
         return path(node)
@@ -66,17 +89,28 @@ DEFAULT = {'rat': '0', 'nat': '0', 'bool': 'false', 'flag': 'false', 'T': 'defau
 KEYWORDS = {'at', 'from', 'end', 'open', 'in', 'do', 'then', 'else', 'fun', 'let', 'have', 'show', 'match',
             'with', 'where', 'by', 'if', 'def', 'P', 'w', 'L', 'k', 'next', 'brk', 'reset', 'step'}
 
-# module-level constants of cron.py -> Lean terms (defined in the generated header from Gen/Constants.lean)
+# module-level numeric constants of cron.py -> Lean names; their VALUES are read from the namespace of the cron
+# module itself (what the code sees under that name -- an import that is shadowed by a local definition is seen
+# too) and written into the generated header as exact decimal rationals; `translated_cron_constants_are_extracted`
+# compares them with Gen/Constants.lean
 CONSTS = {'_TT_OK': 'ttOk', '_TT_WARNING': 'ttWarning', '_TT_ERROR': 'ttError',
-          'SEC_PER_HOUR': '(Gen.secPerHour : Rat)', 'SEC_PER_MIN': '(Gen.secPerMin : Rat)',
-          'SEC_PER_DAY': '(Gen.secPerDay : Rat)'}
+          'SEC_PER_HOUR': 'secPerHour', 'SEC_PER_MIN': 'secPerMin', 'SEC_PER_DAY': 'secPerDay'}
 
 FLAG_METHODS = ('OR', 'test_clear', 'set', 'clear', '__bool__')
+FLAG_TRANSLATED = ('__init__',) + FLAG_METHODS
 
 
 def fld(name):
     name = name.split('.')[-1].lstrip('_')
     return name + '_' if name in KEYWORDS else name
+
+
+def dec_lit(v):
+    """a module constant: the rational its decimal representation denotes (0.001 -> 1/1000)"""
+    if isinstance(v, bool) or not isinstance(v, (int, float)):
+        raise Untranslatable(f'constant {v!r} is not a number')
+    f = Fraction(repr(v))
+    return f'({f.numerator} : Rat)' if f.denominator == 1 else f'(({f.numerator} : Rat) / {f.denominator})'
 
 
 def rat_lit(v):
@@ -96,8 +130,9 @@ def translate_flag(cls):
     """each method: the body is a sequence of `self._value = e`, `value = self._value`, `if [not] other: …`,
     `return e`  ->  fun (v : Bool) (args) => (new v, result)"""
     out = []
-    for name in FLAG_METHODS:
+    for name in FLAG_TRANSLATED:
         fn = ast.parse(textwrap.dedent(inspect.getsource(getattr(cls, name)))).body[0]
+        check_plain_function(fn, f'Flag.{name}')
         params = [a.arg for a in fn.args.args[1:]]
         defaults = {}
         for a, d in zip(reversed(fn.args.args), reversed(fn.args.defaults)):
@@ -120,6 +155,8 @@ def translate_flag(cls):
 
         def body(stmts, env):
             if not stmts:
+                if name == '__init__':
+                    return f"({env['self._value']}, true)"
                 raise Untranslatable(f'Flag.{name}: no return')
             s, rest = stmts[0], stmts[1:]
             if isinstance(s, ast.Expr) and isinstance(s.value, ast.Constant):
@@ -146,7 +183,17 @@ def translate_flag(cls):
         for p in params:
             env[p] = fld(p)
         ps = ''.join(f' ({fld(p)} : Bool' + (f' := {defaults[p]}' if p in defaults else '') + ')' for p in params)
-        lname = {'__bool__': 'bool'}.get(name, name)
+        lname = {'__bool__': 'bool', '__init__': 'init'}.get(name, name)
+        if name == '__init__':
+            # no value before the constructor ran: reading `self._value` first is an error
+            env['self._value'] = 'UNSET'
+            text = body(fn.body, env)
+            if 'UNSET' in text:
+                raise Untranslatable('Flag.__init__ reads self._value before assigning it')
+            out.append('/-- translated from `Flag.__init__`: argument -> (initial value, unused) -/')
+            out.append(f'def Flag_init{ps} : Bool × Bool :=\n  ' + text)
+            out.append('')
+            continue
         out.append(f'/-- translated from `utils.flag.Flag.{name}`: value -> (new value, result) -/')
         out.append(f'def Flag_{lname} (v : Bool){ps} : Bool × Bool :=\n  ' + body(fn.body, env))
         out.append('')
@@ -195,7 +242,14 @@ class Fn:
 
     def prescan(self, stmts):
         """types of the locals: from every assignment (None + Nat = Option Nat)"""
-        for s in ast.walk(ast.Module(body=stmts, type_ignores=[])):
+        nodes = [n for n in ast.walk(ast.Module(body=stmts, type_ignores=[])) if hasattr(n, 'lineno')]
+        nodes.sort(key=lambda n: (n.lineno, n.col_offset))
+        for s in nodes:
+            if isinstance(s, (ast.Assign, ast.AugAssign, ast.For)):
+                for tg in (s.targets if isinstance(s, ast.Assign) else [s.target]):
+                    for sub in ast.walk(tg):
+                        if isinstance(sub, ast.Name) and sub.id in CONSTS:
+                            raise Untranslatable(f'the module constant {sub.id} is shadowed by a local')
             if isinstance(s, ast.Assign) and len(s.targets) == 1 and isinstance(s.targets[0], ast.Name):
                 nm = s.targets[0].id
                 if self.is_alias_value(s.value):
@@ -219,6 +273,14 @@ class Fn:
         return isinstance(it, ast.Call) and try_path(it.func) == 'range' and len(it.args) == 1 and \
             isinstance(it.args[0], ast.Constant) and isinstance(it.args[0].value, int)
 
+    def fname(self, key):
+        """field of the locals record: canonical `v<n>` (n = position of the first binding in the source) for the
+        locals of `_maintask` -- renaming a Python local does not rename anything in the generated text --, the
+        attribute / parameter name elsewhere (those names are part of the declared leaves)"""
+        if getattr(self, 'canonical', False):
+            return f'v{self.order.index(key)}'
+        return fld(key)
+
     def rec(self):
         return self.name[0].upper() + self.name[1:] + 'Locals'
 
@@ -232,10 +294,10 @@ class Fn:
             raise Untranslatable(f'{self.name}: unknown name {key}')
         if unwrapped and key in unwrapped:
             return unwrapped[key], 'nat'
-        return f'L.{fld(key)}', self.types[key]
+        return f'L.{self.fname(key)}', self.types[key]
 
     def set(self, key, text):
-        return f'let L := {{ L with {fld(key)} := {text} }}'
+        return f'let L := {{ L with {self.fname(key)} := {text} }}'
 
     # ---- expressions: returns (pre_lines, text, type)
     def expr(self, e, probe=False, uw=None):
@@ -339,7 +401,7 @@ class Fn:
         if isinstance(op, (ast.Is, ast.IsNot)) and isinstance(y, ast.Constant) and y.value is None:
             px = try_path(x)
             if px in self.types and self.types[px] == 'optnat':
-                t = f'L.{fld(px)}.isNone'
+                t = f'L.{self.fname(px)}.isNone'
                 return [], (t if isinstance(op, ast.Is) else f'(!{t})'), 'bool'
             hook = self.leaves.get(('isnone', px))
             if hook:
@@ -359,7 +421,13 @@ class Fn:
             raise Untranslatable('effect in the right operand')
         sym = {ast.Lt: '<', ast.LtE: '≤', ast.Gt: '>', ast.GtE: '≥', ast.Eq: '==', ast.NotEq: '!='}.get(type(op))
         if sym is None:
-            raise Untranslatable(ast.dump(op))
+            raise Untranslatable(ast.dump(op))       # `is` / `is not` between two values, …
+        if sym in ('==', '!='):
+            for z in (x, y):
+                for sub in ast.walk(z):
+                    if isinstance(sub, ast.Name) and self.types.get(sub.id) == 'optnat':
+                        # `None == 0` is False in Python, not a TypeError: refuse instead of unwrapping
+                        raise Untranslatable(f'== / != on the optional local {sub.id}')
         if ta in ('nat', 'int') and tb in ('nat', 'int'):
             pass
         else:
@@ -390,11 +458,11 @@ class Fn:
                 pre = [f"let {r} := Flag_{e.func.attr} {cur}{''.join(' ' + a for a in args)}",
                        self.set(base, f'{r}.1')]
                 return pre, f'{r}.2', 'bool'
-        if fp == 'Flag' and len(e.args) == 1:
+        if fp == 'Flag' and len(e.args) == 1 and not e.keywords:
             pre, t, ty = self.expr(e.args[0], probe, uw)
             if ty != 'bool' or pre:
                 raise Untranslatable('Flag(…)')
-            return [], t, 'flag'
+            return [], f'(Flag_init {t}).1', 'flag'
         if fp == 'abs' and len(e.args) == 1:
             pre, t, ty = self.expr(e.args[0], probe, uw)
             t, _ = self.to_rat(t, ty)
@@ -417,8 +485,36 @@ class Fn:
 
     # ---- statements (continuation-passing)
     def is_log(self, s):
-        return isinstance(s, ast.Expr) and isinstance(s.value, ast.Call) and \
-            (try_path(s.value.func) or '').startswith('self.log_')
+        if not (isinstance(s, ast.Expr) and isinstance(s.value, ast.Call) and
+                (try_path(s.value.func) or '').startswith('self.log_')):
+            return False
+        # the call is ignored, but its arguments ARE evaluated: they must be effect-free and unable to raise
+        # (names, attributes, constants, arithmetic/comparisons/conditional expressions of them); eager
+        # `%`-formatting, f-strings with format specs and any call are refused
+        for a in list(s.value.args) + [k.value for k in s.value.keywords]:
+            if not self.harmless(a, top=True):
+                raise Untranslatable(f'argument of an ignored logging call: {ast.unparse(a)[:60]}')
+        return True
+
+    def harmless(self, e, top=False):
+        if isinstance(e, ast.Constant):
+            return True
+        if isinstance(e, (ast.Name, ast.Attribute)):
+            return try_path(e) is not None
+        if isinstance(e, ast.BinOp):
+            if isinstance(e.op, ast.Mod) or not isinstance(e.op, (ast.Add, ast.Sub, ast.Mult)):
+                return False            # `%` formats eagerly (and may raise), `/` may divide by zero
+            if any(isinstance(x, ast.Constant) and isinstance(x.value, str) for x in (e.left, e.right)):
+                return False
+            return self.harmless(e.left) and self.harmless(e.right)
+        if isinstance(e, ast.UnaryOp):
+            return self.harmless(e.operand)
+        if isinstance(e, ast.Compare):
+            return all(isinstance(o, (ast.Lt, ast.LtE, ast.Gt, ast.GtE, ast.Eq, ast.NotEq)) for o in e.ops) and \
+                all(self.harmless(x) for x in [e.left] + list(e.comparators))
+        if isinstance(e, ast.IfExp):
+            return self.harmless(e.test) and self.harmless(e.body) and self.harmless(e.orelse)
+        return False
 
     def is_noop(self, s):
         if self.is_log(s) or isinstance(s, ast.Pass):
@@ -464,14 +560,26 @@ class Fn:
         """optional locals used as numbers in these nodes: `match L.x with | none => TypeError | some x_v => …`"""
         need = []
         for n in node_list:
+            guarded = set()
+            for b in ast.walk(n):
+                if isinstance(b, ast.BoolOp):
+                    for v in b.values[1:]:
+                        guarded.update(id(x) for x in ast.walk(v))
+                elif isinstance(b, ast.IfExp):
+                    for v in (b.body, b.orelse):
+                        guarded.update(id(x) for x in ast.walk(v))
             for sub in ast.walk(n):
                 if isinstance(sub, ast.Name) and self.types.get(sub.id) == 'optnat' and isinstance(sub.ctx, ast.Load):
                     if not self.in_none_test(n, sub) and sub.id not in need:
+                        if id(sub) in guarded:
+                            # evaluated only when the operands before it allow: unwrapping it up front would raise
+                            # a TypeError that Python never raises
+                            raise Untranslatable(f'optional local {sub.id} used behind a short-circuit operator')
                         need.append(sub.id)
         uw = {nm: fld(nm) + '_v' for nm in need}
         lines = inner(uw)
         for nm in reversed(need):
-            lines = [f'match L.{fld(nm)} with', f'| none => .raise .typeError {self.args_lw()}',
+            lines = [f'match L.{self.fname(nm)} with', f'| none => .raise .typeError {self.args_lw()}',
                      f'| some {uw[nm]} =>'] + ind(lines)
         return lines
 
@@ -540,7 +648,7 @@ class Fn:
                 raise Untranslatable('augmented assignment')
             pre, t, ty = self.expr(s.value)
             t, _ = self.to_rat(t, ty)
-            return pre + [self.set(nm, f'L.{fld(nm)} {op} {t}')] + K()
+            return pre + [self.set(nm, f'L.{self.fname(nm)} {op} {t}')] + K()
         if isinstance(s, ast.If):
             def inner(uw):
                 pre, t, ty = self.expr(s.test, uw=uw)
@@ -584,7 +692,7 @@ class Fn:
     def structure(self, doc):
         lines = [f'/-- {doc} -/', f'structure {self.rec()} ({self.tparams()}) where']
         for key in self.order:
-            lines.append(f'  {fld(key)} : {LEAN_TY[self.types[key]]}')
+            lines.append(f'  {self.fname(key)} : {LEAN_TY[self.types[key]]}' + (f'    -- `{key}`' if getattr(self, 'canonical', False) else ''))
         return lines
 
     def tparams(self):
@@ -658,6 +766,30 @@ def tab_not_set(fn, e, probe, uw):
 
 
 class TabFn(Fn):
+    def stmts(self, body, k, ctx):
+        """a statement that reads `self._alarms[key]` (or deletes it) raises KeyError without the key: guard it"""
+        live = [s for s in body if not self.is_noop(s)]
+        if live and not getattr(live[0], '_guarded', False):
+            s = live[0]
+            roots = [s.test] if isinstance(s, ast.If) else [s]
+            keys = []
+            for r in roots:
+                for sub in ast.walk(r):
+                    if isinstance(sub, ast.Subscript) and try_path(sub.value) == 'self._alarms' and \
+                            isinstance(sub.ctx, (ast.Load, ast.Del)):
+                        pre, key, _ = self.expr(sub.slice)
+                        if pre:
+                            raise Untranslatable('effect in a key')
+                        if key not in keys:
+                            keys.append(key)
+            if keys:
+                s._guarded = True
+                lines = Fn.stmts(self, live, k, ctx)
+                for key in reversed(keys):
+                    lines = [f'if !(P.has L.alarms {key}) then', '  .error .keyError', 'else'] + ind(lines)
+                return lines
+        return Fn.stmts(self, body, k, ctx)
+
     def expr(self, e, probe=False, uw=None):
         # `not self._alarms[k]` / `not alias`, `len(alias)`, `hasattr(blk, 'recalc')`, `self._mtask is not None`
         if isinstance(e, ast.UnaryOp) and isinstance(e.op, ast.Not):
@@ -693,6 +825,7 @@ TAB_HEADER = '''/-- exceptions of `add_block` / `remove_block` -/
 inductive Exc where
   | typeError
   | valueError
+  | keyError          -- `self._alarms[k]` / `del self._alarms[k]` without the key
   deriving Repr, DecidableEq
 
 /-- the primitives of the alarm table: `D` = the dict `self._alarms`, `S` = a set of blocks, `T` = datetime.time,
@@ -717,6 +850,12 @@ structure TabPrims (D S T B : Type) where
 
 def translate_tab(cron_cls, method):
     node = ast.parse(textwrap.dedent(inspect.getsource(getattr(cron_cls, method)))).body[0]
+    check_plain_function(node, f'Cron.{method}')
+    if node.args.defaults or isinstance(node, ast.AsyncFunctionDef):
+        raise Untranslatable(f'Cron.{method}: default values / async')
+    want = [] if method == 'reload' else ['time_of_day', 'blk']
+    if [a.arg for a in node.args.args[1:]] != want:
+        raise Untranslatable(f'Cron.{method}: parameters {[a.arg for a in node.args.args]}')
     params = {a.arg: {'time_of_day': 'T', 'blk': 'B'}[a.arg] for a in node.args.args[1:]}
     selff = {'self._alarms': 'D', 'self._needs_reload': 'flag'}
     extra = {}
@@ -834,6 +973,15 @@ def mt_in_alarms(fn, t, ty):
     return f'(P.hasAlarm w {t})'
 
 
+def timeout_class(p):
+    """is the name the exception `asyncio.wait_for` raises on a timeout?  (`TimeoutError` only where it is the
+    same class, Python >= 3.11)"""
+    import asyncio
+    if p == 'asyncio.TimeoutError':
+        return True
+    return p == 'TimeoutError' and asyncio.TimeoutError is TimeoutError
+
+
 def block_iter(fn, it):
     """the iterable of a recalc loop -> an enumeration computed from the CURRENT world"""
     if isinstance(it, ast.Call) and isinstance(it.func, ast.Attribute) and it.func.attr == 'union' and \
@@ -912,7 +1060,7 @@ def mt_stmt(fn, s, rest, k, ctx):
                        f'def {loopf} {sig} : List Nat → {fn.cont_ty()}',
                        f'  | [], L, w => {after} P L w',
                        f'  | x_ :: rest_, L, w =>',
-                       f'    {bodyf} P (fun L w => {loopf} P rest_ L w) ({after} P) {{ L with {fld(var)} := x_ }} w', ''])
+                       f'    {bodyf} P (fun L w => {loopf} P rest_ L w) ({after} P) {{ L with {fn.fname(var)} := x_ }} w', ''])
         return [f'{loopf} P (List.range {s.iter.args[0].value}) L w']
     # time.sleep(X)
     if isinstance(s, ast.Expr) and isinstance(s.value, ast.Call) and try_path(s.value.func) == 'time.sleep':
@@ -931,7 +1079,7 @@ def mt_stmt(fn, s, rest, k, ctx):
     if isinstance(s, ast.Try):
         ok = (len(s.body) == 1 and isinstance(s.body[0], ast.Expr) and isinstance(s.body[0].value, ast.Await)
               and len(s.handlers) == 1 and not s.finalbody
-              and try_path(s.handlers[0].type) in ('asyncio.TimeoutError', 'TimeoutError'))
+              and s.handlers[0].name is None and timeout_class(try_path(s.handlers[0].type)))
         c = s.body[0].value.value if ok else None
         ok = ok and isinstance(c, ast.Call) and try_path(c.func) == 'asyncio.wait_for' and len(c.args) == 2 and \
             isinstance(c.args[0], ast.Call) and try_path(c.args[0].func) == 'self._queue.get' and not c.args[0].args
@@ -966,12 +1114,16 @@ MT_LEAVES = {'tparams': 'T DT : Type', 'stmt': mt_stmt,
 
 def translate_maintask(cron_cls):
     node = ast.parse(textwrap.dedent(inspect.getsource(cron_cls._maintask))).body[0]
+    check_plain_function(node, 'Cron._maintask')
+    if not isinstance(node, ast.AsyncFunctionDef) or [a.arg for a in node.args.args] != ['self']:
+        raise Untranslatable('Cron._maintask: not `async def _maintask(self)`')
     body = [s for s in node.body if not (isinstance(s, ast.Expr) and isinstance(s.value, ast.Constant))]
     if not (isinstance(body[-1], ast.While) and isinstance(body[-1].test, ast.Constant) and body[-1].test.value is True
             and not body[-1].orelse):
         raise Untranslatable('_maintask does not end with `while True:`')
     loop = body[-1]
     fn = Fn('mt', node, {}, {}, MT_LEAVES, 'Res (MtLocals T DT) σ', world=True)
+    fn.canonical = True
     for _ in range(3):          # the types of later assignments depend on earlier ones
         fn.prescan(body)
     init_stmts = body[:-1]
@@ -995,7 +1147,7 @@ def translate_maintask(cron_cls):
         if val is None:
             d = DEFAULT[fn.types[key]]
             val = d
-        fields.append(f'{fld(key)} := {val}')
+        fields.append(f'{fn.fname(key)} := {val}')
     lines += ['/-- translated from `blocklib.cron.Cron._maintask`: the statements before `while True:` -/',
               f'def mtInit {{T DT : Type}} [Inhabited T] [Inhabited DT] : MtLocals T DT :=',
               '  { ' + ',\n    '.join(fields) + ' }', '']
@@ -1052,6 +1204,9 @@ def translate_recalc(td_cls, ts_cls):
 
     # _is_configured: any(cfg is not None for cfg in (a, b, c))
     node = ast.parse(textwrap.dedent(inspect.getsource(td_cls._is_configured))).body[0]
+    check_plain_function(node, 'TimeDate._is_configured')
+    if [a.arg for a in node.args.args] != ['self']:
+        raise Untranslatable('_is_configured signature')
     r = only_stmt(node)
     if not (isinstance(r, ast.Return) and isinstance(r.value, ast.Call) and try_path(r.value.func) in ('any', 'all')
             and len(r.value.args) == 1 and isinstance(r.value.args[0], ast.GeneratorExp)):
@@ -1075,7 +1230,8 @@ def translate_recalc(td_cls, ts_cls):
             '  (' + join.join(items) + ')', '']
     for cls, nm, doc in ((td_cls, 'tdRecalc', 'TimeDate'), (ts_cls, 'tsRecalc', 'TimeSpan')):
         node = ast.parse(textwrap.dedent(inspect.getsource(cls.recalc))).body[0]
-        if [a.arg for a in node.args.args] != ['self', 'now']:
+        check_plain_function(node, f'{doc}.recalc')
+        if [a.arg for a in node.args.args] != ['self', 'now'] or node.args.defaults:
             raise Untranslatable('recalc signature')
         s = only_stmt(node)
         if not (isinstance(s, ast.Expr) and isinstance(s.value, ast.Call) and try_path(s.value.func) == 'self.set_output'
@@ -1119,6 +1275,23 @@ inductive RAct where
 def translate_reconfig(cls, which):
     """action list; conditions `self._times is not None` refer to the configuration stored at that point"""
     node = ast.parse(textwrap.dedent(inspect.getsource(cls._event_reconfig))).body[0]
+    check_plain_function(node, '_event_reconfig', allow_kwonly=True)
+    if [a.arg for a in node.args.args] != ['self'] or node.args.defaults:
+        raise Untranslatable('_event_reconfig: positional parameters')
+    # the keyword-only parameters and their defaults decide what an absent item of the event data means
+    defaults = [(a.arg, ast.unparse(d) if d is not None else '<required>')
+                for a, d in zip(node.args.kwonlyargs, node.args.kw_defaults)]
+    # init_from_value / _restore_state must be this very reconfiguration
+    init = ast.parse(textwrap.dedent(inspect.getsource(cls.init_from_value))).body[0]
+    check_plain_function(init, 'init_from_value')
+    ibody = [s for s in init.body if not (isinstance(s, ast.Expr) and isinstance(s.value, ast.Constant))]
+    want = {'td': 'self._event_reconfig(**value)', 'ts': 'self._event_reconfig(span=value)'}[which]
+    if [a.arg for a in init.args.args] != ['self', 'value'] or init.args.defaults or len(ibody) != 1 or \
+            not isinstance(ibody[0], ast.Expr) or ast.unparse(ibody[0].value) != want:
+        raise Untranslatable(f'init_from_value is not `{want}`')
+    if cls.__dict__.get('_restore_state') is not cls.__dict__.get('init_from_value') or \
+            cls._restore_state is not cls.init_from_value:
+        raise Untranslatable('_restore_state is not init_from_value')
     body = [s for s in node.body if not (isinstance(s, ast.Expr) and isinstance(s.value, ast.Constant))]
     cfg_attr = {'td': 'self._times', 'ts': 'self._span'}[which]
     state = {'stored': False, 'readings': 0}
@@ -1236,7 +1409,11 @@ def translate_reconfig(cls, which):
     return [f'/-- translated from `blocklib.timedate.{doc}._event_reconfig`' +
             (' (`oldSome`/`newSome`: `self._times is not None` before / after the new configuration is stored)'
              if which == 'td' else '') + ' -/',
-            f'def {nm} {params} : List RAct :=', '  ' + ' ++\n  '.join(parts), '']
+            f'def {nm} {params} : List RAct :=', '  ' + ' ++\n  '.join(parts), '',
+            f'/-- keyword-only parameters of `{doc}._event_reconfig` with their defaults (source text); `init_from_value`',
+            f'    and `_restore_state` were checked to be `{want}` -/',
+            f'def {nm}Defaults : List (String × String) :=',
+            '  [' + ', '.join(f'("{a}", "{d}")' for a, d in defaults) + ']', '']
 
 
 # ------------------------------------------------------------------------------------------------ main
@@ -1251,18 +1428,20 @@ namespace Edzed.Gen.TrCron
 
 def ratAbs (x : Rat) : Rat := if x < 0 then -x else x
 
-/-- `_TT_OK`, `_TT_WARNING`, `_TT_ERROR` in seconds (from the extracted constants) -/
-def ttOk : Rat := (Gen.cronTtOkUs : Rat) / 1000000
-def ttWarning : Rat := (Gen.cronTtWarningUs : Rat) / 1000000
-def ttError : Rat := (Gen.cronTtErrorUs : Rat) / 1000000
-
 '''
 
 
 def main_cron(outfile, py2lean):
     from edzed.blocklib import cron, timedate
-    from edzed.utils import flag
     L = [HEADER]
+    L.append('/-- the numeric module constants as `blocklib/cron.py` sees them (value of the NAME in its namespace) -/')
+    for py, ln in CONSTS.items():
+        try:
+            L.append(f'def {ln} : Rat := {dec_lit(getattr(cron, py))}    -- {py}')
+        except Exception as err:
+            L.append(f'-- UNTRANSLATABLE constant {py}: {err}')
+            print(f'UNTRANSLATABLE constant {py}: {err}')
+    L.append('')
 
     def section(doc, name, fn):
         try:
@@ -1271,7 +1450,8 @@ def main_cron(outfile, py2lean):
             L.append(f"-- UNTRANSLATABLE `{doc}`: definition `{name}` omitted ({' '.join(str(err).split())[:200]})")
             L.append('')
             print(f'UNTRANSLATABLE {name} ({doc}): {err}')
-    section('utils.flag.Flag', 'Flag_…', lambda: translate_flag(flag.Flag))
+    # the class bound to the name `Flag` in the cron module (not "the" Flag of utils.flag)
+    section('Flag as imported by blocklib.cron', 'Flag_…', lambda: translate_flag(cron.Flag))
     L.append(TAB_HEADER)
     for m, n in (('add_block', 'addBlock'), ('remove_block', 'removeBlock'), ('reload', 'reload')):
         section(f'blocklib.cron.Cron.{m}', n, lambda m=m: translate_tab(cron.Cron, m))
